@@ -366,7 +366,7 @@ func c10Init(c *eng.Ctx, init *ssa.Function) {
 					continue
 				}
 				// s: the ctx ended edge
-				bad, _ := eng.Search(init, s.Instrs[0], nil, nil, func(y ssa.Instruction) bool {
+				bad, _ := eng.SearchBlock(init, s, nil, nil, func(y ssa.Instruction) bool {
 					if r, isR := y.(*ssa.Return); isR {
 						return nonNilAt(eng.RetVals(r)[0], eng.FactsAt(r)) != eng.Yes
 					}
